@@ -419,7 +419,8 @@ pub fn gen_wasm(rng: &mut Rng, thorough: bool) -> Vec<String> {
             if rng.chance(1, 2) {
                 ops.push("next-block".into());
             } else {
-                ops.push(format!("block {} {}", rng.range(1, 100000), rng.range(1, 2_000_000_000) * 1_000_000_000));
+                let h = if rng.chance(1, 3) { "same".to_string() } else { rng.range(1, 100000).to_string() };
+                ops.push(format!("block {} {}", h, rng.range(1, 2_000_000_000) * 1_000_000_000));
             }
         }
         observe(&mut ops);
